@@ -78,7 +78,8 @@ Theorem C17_calo_is_sum_of_steps : forall (F : Type) (fzero : F) (fadd : F -> F 
 Proof. exact calo_is_sum_of_steps. Qed.
 Print Assumptions C17_calo_is_sum_of_steps.
 
-(** ActionDiagnostic run on every iteration (no single-slot shortcut). *)
+(** The current code (ActionDiagnostic at [user_post], run on every iteration):
+    holds for EVERY number of track slots. *)
 Theorem C17_action_counts_are_counts : forall (F : Type) (fzero : F) (is_zero : F -> bool)
     (p : params) (steps : list (step F)) (rows0 : list (row F)) (i j : Z),
   has_det p = false -> s_particle (p_sel p) = true -> s_action (p_sel p) = true ->
@@ -88,8 +89,8 @@ Theorem C17_action_counts_are_counts : forall (F : Type) (fzero : F) (is_zero : 
 Proof. exact action_counts_are_counts. Qed.
 Print Assumptions C17_action_counts_are_counts.
 
-(** ... and with the host ActionSequence's single-slot shortcut applying to the
-    diagnostic, as long as there is more than one track slot. *)
+(** The old variant (diagnostic at order [post], subject to the host
+    ActionSequence's single-slot shortcut) needed more than one track slot ... *)
 Theorem C17_action_counts_are_counts_multi_slot : forall (F : Type) (fzero : F) (is_zero : F -> bool)
     (p : params) (steps : list (step F)) (rows0 : list (row F)) (i j : Z),
   has_det p = false -> s_particle (p_sel p) = true -> s_action (p_sel p) = true ->
@@ -100,8 +101,8 @@ Theorem C17_action_counts_are_counts_multi_slot : forall (F : Type) (fzero : F) 
 Proof. intros F fzero is_zero p steps rows0 i j Hd Hp Ha Hn. apply (action_counts_are_counts_gen F fzero is_zero true); auto. Qed.
 Print Assumptions C17_action_counts_are_counts_multi_slot.
 
-(** With ONE track slot and the shortcut, the diagnostic misses delivered steps
-    (replayed on the real Stepper: finding, see props/C17/NOTES.md). *)
+(** ... and with ONE track slot it missed delivered steps (reproduced on the real
+    Stepper before repo commit d1fcf6b; see props/C17/NOTES.md, finding 1). *)
 Theorem C17_action_counts_single_slot_refuted :
   exists (p : params) (steps : list (step Z)) (rows0 : list (row Z)) (i j : Z),
     has_det p = false /\ s_particle (p_sel p) = true /\ s_action (p_sel p) = true /\
